@@ -712,8 +712,12 @@ def mkClosure (ic : Bool) (fr : Frame) (mk : Nat) (body : List Act) : Closure :=
     locals := fr.locals.filter (fun kv => (captureSet ic body []).contains kv.1),
     wild := fr.wild }
 
+/-- what a function executes: its marker print first — except a "silent" function (marker 0), whose
+only non-local needs are the roots of its import statements -/
+def closureBody (c : Closure) : List Act := if c.marker = 0 then c.body else Act.print c.marker :: c.body
+
 def runFn (cfg : Cfg) (fs : FS) (rec : Runner) (c : Closure) (st : St) : Option (Option Err × St) :=
-  match execActs cfg fs rec (Act.print c.marker :: c.body)
+  match execActs cfg fs rec (closureBody c)
       { dir := c.dir, locals := c.locals, wild := c.wild, exportTop := false } st with
   | none => none
   | some (r, _, st1) => some (r, st1)
@@ -730,7 +734,7 @@ def callValue (cfg : Cfg) (fs : FS) (rec : Runner) (v : V) (st : St) : Option (O
     match fnOf st home key with
     | none => some (some .call, st)
     | some c =>
-      match execActs cfg fs rec (Act.print c.marker :: c.body)
+      match execActs cfg fs rec (closureBody c)
           { dir := c.dir, locals := c.locals, wild := c.wild, exportTop := false, home := home } st with
       | none => none
       | some (r, _, st1) => some (r, st1)
